@@ -76,8 +76,21 @@ func genC01(seed uint64, tier string) *Case {
 			s.Op = "loss"
 			s.K = g.Pick(0, 5, 20, 40)
 		case x < 18:
-			s.Op = "dup"
-			s.K = g.Pick(0, 10, 20)
+			switch g.Intn(3) {
+			case 0:
+				s.Op = "dup"
+				s.K = g.Pick(0, 10, 20)
+			case 1:
+				// one direction of one link goes dead (asymmetric partition)
+				s.Op = "oneway"
+				if s.J == s.I {
+					s.J = (s.I + 1) % n
+				}
+			default:
+				// a slow node: everything it sends or receives is late by K ms
+				s.Op = "slow"
+				s.K = g.Pick(0, 800, 2500, 6000)
+			}
 		case x < 19:
 			s.Op = "delay"
 			s.K = g.Pick(0, 50, 300, 1500)
@@ -107,6 +120,8 @@ type netC struct {
 	loss    int
 	dup     int
 	delayMs int
+	cut     map[[2]int]bool // directed links that are dead
+	slow    map[int]int     // extra delay (ms) of everything a node sends or receives
 	seq     map[[2]int]uint64
 	stats   map[string]int
 }
@@ -131,6 +146,11 @@ func (nc *netC) Route(n *simnet.Net, p *simnet.Packet) {
 		nc.mu.Unlock()
 		return
 	}
+	if nc.cut[key] {
+		nc.stats["oneway-drop"]++
+		nc.mu.Unlock()
+		return
+	}
 	if nc.loss > 0 && int(fate(nc.seed, a, b, seq, 1)%100) < nc.loss {
 		nc.stats["loss-drop"]++
 		nc.mu.Unlock()
@@ -147,6 +167,10 @@ func (nc *netC) Route(n *simnet.Net, p *simnet.Packet) {
 		if delay > 0 {
 			nc.stats["delayed"]++
 		}
+	}
+	if sl := nc.slow[a] + nc.slow[b]; sl > 0 {
+		delay += time.Duration(sl) * time.Millisecond
+		nc.stats["slow-node-delayed"]++
 	}
 	nc.mu.Unlock()
 	for i := 0; i < copies; i++ {
@@ -165,7 +189,8 @@ func (nc *netC) AllowDial(from, to string) error {
 	defer nc.mu.Unlock()
 	a, okA := nc.idx[from]
 	b, okB := nc.idx[to]
-	if okA && okB && nc.side[a] != nc.side[b] {
+	if okA && okB && (nc.side[a] != nc.side[b] || nc.cut[[2]int{a, b}] || nc.cut[[2]int{b, a}]) {
+		// (a stream needs both directions)
 		nc.stats["dial-refused"]++
 		return fmt.Errorf("simnet: dial %s: network unreachable (partition)", to)
 	}
@@ -180,7 +205,12 @@ func (nc *netC) clean() bool {
 			return false
 		}
 	}
-	return nc.loss == 0
+	for _, ms := range nc.slow {
+		if ms > 0 {
+			return false // a leave through seconds of delay may not get out before the process ends
+		}
+	}
+	return nc.loss == 0 && len(nc.cut) == 0
 }
 
 type nodeC struct {
@@ -200,7 +230,7 @@ func execC01(r *Run) {
 	if n < 2 {
 		n = 3
 	}
-	nc := &netC{seed: r.C.Seed, idx: map[string]int{}, side: make([]int, n), seq: map[[2]int]uint64{}, stats: map[string]int{}}
+	nc := &netC{seed: r.C.Seed, idx: map[string]int{}, side: make([]int, n), seq: map[[2]int]uint64{}, stats: map[string]int{}, cut: map[[2]int]bool{}, slow: map[int]int{}}
 	nc.net = simnet.New(nc)
 	nodes := make([]*nodeC, n)
 	for i := range nodes {
@@ -424,8 +454,32 @@ func execC01(r *Run) {
 			for k := range nc.side {
 				nc.side[k] = 0
 			}
+			nc.cut = map[[2]int]bool{}
 			nc.mu.Unlock()
 			r.Fault("heal")
+		case "oneway":
+			nc.mu.Lock()
+			nc.cut[[2]int{s.I % n, s.J % n}] = true
+			nc.mu.Unlock()
+			for _, x := range nodes {
+				if x.leaving {
+					x.leaveDirty = true
+				}
+			}
+			r.Fault("one-way-link-cut")
+			r.Logf("t=%v one-way cut n%d -> n%d", time.Since(start), s.I%n, s.J%n)
+		case "slow":
+			nc.mu.Lock()
+			nc.slow[s.I%n] = s.K
+			nc.mu.Unlock()
+			if s.K > 0 {
+				for _, x := range nodes {
+					if x.leaving {
+						x.leaveDirty = true
+					}
+				}
+				r.Fault("slow-node")
+			}
 		case "loss":
 			nc.mu.Lock()
 			nc.loss = s.K
@@ -463,6 +517,7 @@ func execC01(r *Run) {
 		nc.side[k] = 0
 	}
 	nc.loss, nc.dup, nc.delayMs = 0, 0, 0
+	nc.cut, nc.slow = map[[2]int]bool{}, map[int]int{}
 	nc.mu.Unlock()
 	// isolated survivors need a way back: a real deployment re-joins through its
 	// retry-join list; do that once for every running node that is alone
